@@ -32,6 +32,7 @@ struct Files {
     empty: String,
     fakezip: String,
     realzip: String,
+    slowzip: String, // like realzip plus a 96 MiB member that is no log: slow to extract
     nodltzip: String, // a zip archive without any DLT file
     ft: String,       // a log with file transfers: idx 0 complete, idx 1 incomplete, idx 2 complete
     ft_data: Vec<Vec<u8>>, // the transferred bytes per idx (empty: incomplete)
@@ -110,9 +111,10 @@ fn concretise(verb: &str, arg: &str, tk: Option<&str>, f: &Files, big: bool) -> 
             "ok_plugins_dup" => j(json!({"files":[file],"plugins":[{"name":"Rewrite","rewrites":[]},{"name":"FileTransfer"},
                 {"name":"Rewrite","rewrites":[]},{"name":"FileTransfer","keepFLDA":true}]})),
             "ok_zip" => j(json!({"files":[f.realzip]})),
-            // the same archive named 120 times: the extraction (sequential, after the reply) stays pending for several 100 ms
-            "ok_zip_slow" => j(json!({"files": std::iter::repeat(f.realzip.clone()).take(120).collect::<Vec<_>>()})),
-            "ok_zip_slow_onepass" => j(json!({"collect":"one_pass_streams","files": std::iter::repeat(f.realzip.clone()).take(120).collect::<Vec<_>>()})),
+            // an archive with a 96 MiB padding member next to its log, named 3 times: the extraction (every member, sequentially, after
+            // the reply) stays pending for several 100 ms
+            "ok_zip_slow" => j(json!({"files": std::iter::repeat(f.slowzip.clone()).take(3).collect::<Vec<_>>()})),
+            "ok_zip_slow_onepass" => j(json!({"collect":"one_pass_streams","files": std::iter::repeat(f.slowzip.clone()).take(3).collect::<Vec<_>>()})),
             "zip_glob_all" => j(json!({"files":[format!("{}!/**/*.dlt", f.realzip)]})),
             "zip_glob_some" => j(json!({"files":[format!("{}!/logs/sub/*.dlt", f.realzip)]})),
             "zip_glob_none" => j(json!({"files":[format!("{}!/no_such_dir/*.dlt", f.realzip)]})),
@@ -906,6 +908,20 @@ fn make_files(work: &str, seed: u64, n_small: usize, n_big: usize, n_huge: usize
         z.write_all(b"no dlt content here\n").unwrap();
         z.finish().unwrap();
     }
+    let slowzip = format!("{}/slow.zip", dir);
+    {
+        use std::io::Write;
+        let mut z = zip::ZipWriter::new(std::io::BufWriter::with_capacity(1 << 20, std::fs::File::create(&slowzip).unwrap()));
+        let opt = zip::write::SimpleFileOptions::default().compression_method(zip::CompressionMethod::Stored);
+        z.start_file("aaa/pad.bin", opt).unwrap();
+        let block = vec![0x5au8; 1 << 20];
+        for _ in 0..96 {
+            z.write_all(&block).unwrap();
+        }
+        z.start_file("logs/small.dlt", opt).unwrap();
+        z.write_all(&std::fs::read(&small).unwrap()).unwrap();
+        z.finish().unwrap();
+    }
     let nodltzip = format!("{}/nodlt.zip", dir);
     {
         use std::io::Write;
@@ -956,7 +972,7 @@ fn make_files(work: &str, seed: u64, n_small: usize, n_big: usize, n_huge: usize
         set(&fut, SystemTime::UNIX_EPOCH + Duration::from_secs(20_000_000_000));
         set(&meta_dir, SystemTime::UNIX_EPOCH - Duration::from_secs(3 * 365 * 86400));
     }
-    Files { meta_dir, small, big, huge, n_small: n_small as u64, n_big: n_big as u64, empty, fakezip, realzip, nodltzip, ft, ft_data, autosave_dir, missing: format!("{}/does_not_exist.dlt", dir), dir }
+    Files { meta_dir, slowzip, small, big, huge, n_small: n_small as u64, n_big: n_big as u64, empty, fakezip, realzip, nodltzip, ft, ft_data, autosave_dir, missing: format!("{}/does_not_exist.dlt", dir), dir }
 }
 
 fn main() {
